@@ -234,6 +234,10 @@ class IterativeTighteningSearch(Bounded, Generic[B]):
                     if node.deleted:
                         continue
                     tightened = node.item.tighten_bounds()
+                    if not tightened and node.item.bounds() != node.key:
+                        # the item has been tightened since it was pushed (by its owner, or through another entry of this
+                        # search that holds the same object): its key is stale, so re-keying it is progress, too
+                        tightened = True
                     if tightened:
                         self._update_bounds(node)
                         break
